@@ -38,47 +38,49 @@ def gen_input(alphabet, dtype, shape, rng):
     return torch.from_numpy(x).to(td), bits
 
 
-def check_cell(ctx, cell, case):
+def check_cell(ctx, cell, case, chan=None, chk=None, rc=None):
     import torch
+    chk = chk or CHK
+    rc = rc or case
     ch, p, alphabet, dtype = case["channel"], case["p"], case["alphabet"], case["dtype"]
     shape = tuple(case["shape"])
     es = case.get("erasure_symbol")
     cell = cell or {"channel": ch, "alphabet": alphabet, "dtype": dtype, "erasure_symbol": "default" if es is None else "custom"}
     rng = np.random.RandomState(case.get("seed", ctx.seed))
-    c = make(ch, p, es)
+    c = chan if chan is not None else make(ch, p, es)
     x, bits = gen_input(alphabet, dtype, shape, rng)
     x0 = x.clone()
-    ok, y = ctx.call(lambda: c(x), "C12.raises", cell, case, checker=CHK)
+    ok, y = ctx.call(lambda: c(x), "C12.raises", cell, rc, checker=chk)
     if not ok:
         return
     ctx.ev(x.numel())
     if 0 < p < 1:
         ctx.nontrivial(cell, p, shape)
-    ctx.check(torch.equal(x, x0), "C12.e_input_unmodified", cell, case, None, None, "channel modified its input tensor", CHK)
-    ctx.check(tuple(y.shape) == shape, "C12.shape", cell, case, list(y.shape), list(shape), checker=CHK)
+    ctx.check(torch.equal(x, x0), "C12.e_input_unmodified", cell, rc, None, None, "channel modified its input tensor", chk)
+    ctx.check(tuple(y.shape) == shape, "C12.shape", cell, rc, list(y.shape), list(shape), checker=chk)
     yv = y.detach().to(torch.float64).numpy()
     xv = x.to(torch.float64).numpy()
     lo, hi = (-1.0, 1.0) if alphabet == "bipolar" else (0.0, 1.0)
     esym = float(-1 if es is None else es)
     allowed = {lo, hi} | ({esym} if ch == "bec" else set())
     vals = set(np.unique(yv).tolist())
-    ctx.check(vals <= allowed, "C12.a_alphabet", cell, case, sorted(vals)[:6], sorted(allowed), "output leaves the input alphabet (plus erasure symbol)", CHK)
+    ctx.check(vals <= allowed, "C12.a_alphabet", cell, rc, sorted(vals)[:6], sorted(allowed), "output leaves the input alphabet (plus erasure symbol)", chk)
     changed = yv != xv
     if ch == "z":
-        ctx.check(not changed[xv == lo].any(), "C12.b_z_zero_preserved", cell, case, int(changed[xv == lo].sum()), 0, "Z-channel turned a 0 into a 1", CHK)
-        ctx.check(bool(np.all(yv[changed] == lo)), "C12.b_z_direction", cell, case, None, None, checker=CHK)
+        ctx.check(not changed[xv == lo].any(), "C12.b_z_zero_preserved", cell, rc, int(changed[xv == lo].sum()), 0, "Z-channel turned a 0 into a 1", chk)
+        ctx.check(bool(np.all(yv[changed] == lo)), "C12.b_z_direction", cell, rc, None, None, checker=chk)
     if ch == "bec":
-        ctx.check(bool(np.all(yv[changed] == esym)), "C12.c_bec_unerased_unchanged", cell, case, None, None, "an unerased symbol differs from the input", CHK)
+        ctx.check(bool(np.all(yv[changed] == esym)), "C12.c_bec_unerased_unchanged", cell, rc, None, None, "an unerased symbol differs from the input", chk)
         erased = changed if esym in (lo, hi) else (yv == esym)
     if p == 0.0:
-        ctx.check(not changed.any(), "C12.d_p0_identity", cell, case, int(changed.sum()), 0, "probability 0 is not the identity", CHK)
+        ctx.check(not changed.any(), "C12.d_p0_identity", cell, rc, int(changed.sum()), 0, "probability 0 is not the identity", chk)
     if p == 1.0:
         if ch == "bsc":
-            ctx.check(bool(changed.all()) and bool(np.all(yv == (lo + hi) - xv)), "C12.d_p1_extreme", cell, case, int((~changed).sum()), 0, "BSC with p=1 does not complement every bit", CHK)
+            ctx.check(bool(changed.all()) and bool(np.all(yv == (lo + hi) - xv)), "C12.d_p1_extreme", cell, rc, int((~changed).sum()), 0, "BSC with p=1 does not complement every bit", chk)
         elif ch == "z":
-            ctx.check(bool(np.all(yv == lo)), "C12.d_p1_extreme", cell, case, None, None, "Z-channel with p=1 does not map every 1 to 0", CHK)
+            ctx.check(bool(np.all(yv == lo)), "C12.d_p1_extreme", cell, rc, None, None, "Z-channel with p=1 does not map every 1 to 0", chk)
         else:
-            ctx.check(bool(np.all(yv == esym)), "C12.d_p1_extreme", cell, case, None, None, "BEC with p=1 does not erase everything", CHK)
+            ctx.check(bool(np.all(yv == esym)), "C12.d_p1_extreme", cell, rc, None, None, "BEC with p=1 does not erase everything", chk)
     # statistics
     if case.get("stat") and 0 < p < 1:
         ev = changed if ch != "bec" or esym not in (lo, hi) else None
@@ -95,8 +97,8 @@ def check_cell(ctx, cell, case):
             rate = float(ev[g].mean())
             target = p if not (ch == "z" and gname == "on_zeros") else 0.0
             tol = Z * np.sqrt(max(target * (1 - target), 1e-12) / n) + (0 if target else 0)
-            ctx.check(abs(rate - target) <= tol if target else rate == 0.0, "C12.f_rate", {**cell, "group": gname}, {**case, "group": gname}, {"rate": rate, "n": n}, {"p": target, "tolerance": tol},
-                      "event rate differs from the configured probability", CHK)
+            ctx.check(abs(rate - target) <= tol if target else rate == 0.0, "C12.f_rate", {**cell, "group": gname}, {**rc, "group": gname}, {"rate": rate, "n": n}, {"p": target, "tolerance": tol},
+                      "event rate differs from the configured probability", chk)
         # independence along the last axis and across rows (on the subset where the event is possible)
         e2 = ev.reshape(-1, shape[-1]).astype(np.float64)
         if ch == "z":
@@ -108,18 +110,44 @@ def check_cell(ctx, cell, case):
             for lag in (1, 2, 3):
                 n = d[:, :-lag].size
                 corr = float((d[:, :-lag] * d[:, lag:]).mean() / var)
-                ctx.check(abs(corr) <= Z / np.sqrt(n), "C12.g_independence", {**cell, "lag": lag}, {**case, "lag": lag}, corr, Z / np.sqrt(n), "events are correlated along the sequence", CHK)
+                ctx.check(abs(corr) <= Z / np.sqrt(n), "C12.g_independence", {**cell, "lag": lag}, {**rc, "lag": lag}, corr, Z / np.sqrt(n), "events are correlated along the sequence", chk)
             if e2.shape[0] >= 2:
                 h = e2.shape[0] // 2
                 n = d[:h].size
                 corr = float((d[:h] * d[h:2 * h]).mean() / var)
-                ctx.check(abs(corr) <= Z / np.sqrt(n), "C12.g_independence", {**cell, "lag": "rows"}, {**case, "lag": "rows"}, corr, Z / np.sqrt(n), "events are correlated across batch rows", CHK)
+                ctx.check(abs(corr) <= Z / np.sqrt(n), "C12.g_independence", {**cell, "lag": "rows"}, {**rc, "lag": "rows"}, corr, Z / np.sqrt(n), "events are correlated across batch rows", chk)
         # (h) a second call gives a different realisation
         y2 = c(x).detach().to(torch.float64).numpy()
-        ctx.check(bool((y2 != yv).any()), "C12.h_fresh_randomness", cell, case, None, None, "two calls produced the identical error pattern (frozen mask)", CHK)
+        ctx.check(bool((y2 != yv).any()), "C12.h_fresh_randomness", cell, rc, None, None, "two calls produced the identical error pattern (frozen mask)", chk)
     ctx.cls(f"cells_{ch}")
     if len(ctx.samples) < 2:
         ctx.sample({"cell": cell, "p": p, "shape": list(shape), "first_in": xv.reshape(-1)[:8].tolist(), "first_out": yv.reshape(-1)[:8].tolist()})
+
+
+def check_reuse(ctx, cell, case):
+    """One channel object, several calls whose inputs alternate between alphabets, dtypes and shapes: every call obeys the law for
+    ITS input (the format is recognised per call). case: {channel, p, erasure_symbol, steps: [[alphabet, dtype, shape], ...], seed}"""
+    ch, p, es = case["channel"], case["p"], case.get("erasure_symbol")
+    c = make(ch, p, es)
+    for i, (alphabet, dtype, shape) in enumerate(case["steps"]):
+        sub = {"channel": ch, "p": p, "alphabet": alphabet, "dtype": dtype, "shape": list(shape), "erasure_symbol": es, "seed": case["seed"] + i}
+        cl = {"channel": ch, "alphabet": alphabet, "dtype": dtype, "erasure_symbol": "default" if es is None else "custom", "mode": "object_reuse"}
+        check_cell(ctx, cl, sub, chan=c, chk="c12:check_reuse", rc={**case, "failing_step": i})
+    ctx.cls("reuse_histories")
+
+
+def unit_reuse(ctx, channel):
+    from hypothesis import strategies as st
+    from ..hyp import draw_cases
+    step = st.tuples(st.sampled_from(["binary", "bipolar"]), st.sampled_from(["float32", "float64", "int64"]),
+                     st.sampled_from([[64], [5, 17], [2, 3, 8]]))
+    strat = st.fixed_dictionaries({"p": st.sampled_from([0.0, 0.25, 0.5, 1.0]), "steps": st.lists(step, min_size=2, max_size=5), "seed": st.integers(0, 2 ** 20),
+                                   "erasure_symbol": st.sampled_from([None, 2.0]) if channel == "bec" else st.none()})
+    fixed = [{"p": pp, "steps": [[a1, "float32", [64]], [a2, "float32", [64]], [a1, "float32", [5, 17]]], "seed": 5, "erasure_symbol": None}
+             for pp in (0.0, 0.25, 1.0) for a1, a2 in (("binary", "bipolar"), ("bipolar", "binary"))]
+    for f in fixed:
+        check_reuse(ctx, None, {"channel": channel, **f})
+    draw_cases(strat, 300 if ctx.tier == "thorough" else 40, ctx.seed * 131 + len(channel), lambda d: check_reuse(ctx, None, {"channel": channel, **{k: (list(map(list, v)) if k == "steps" else v) for k, v in d.items()}}))
 
 
 def unit_exact(ctx, channel):
@@ -145,6 +173,7 @@ def units(tier, seed):
     T = tier == "thorough"
     N = 32_000_000 if T else 4_000_000
     us = [Unit(f"exact_{c}", "c12:unit_exact", {"channel": c}, 2) for c in ("bsc", "z", "bec")]
+    us += [Unit(f"reuse_{c}", "c12:unit_reuse", {"channel": c}, 2) for c in ("bsc", "z", "bec")]
     for c in ("bsc", "z", "bec"):
         for p in (1e-3, 0.01, 0.1, 0.3, 0.5, 0.9, 0.999):
             for a in ("binary", "bipolar"):
